@@ -15,8 +15,8 @@ def ob(name, defs, **kw):
 OBLIGATIONS = [
     ob('echsd_writes_limit', ['SIDE_D'], incl=['src/echsd.c'], replay_extra_units=['src/logger.c'], object_bits=11, enc=['vtodoify'],
        allow_nobody=['snprintf', 'obint_name', 'echs_log', 'echs_errlog'], stubs=['fdprnt.h pre-empted by capturing writers (harness/common/echsd_env.h)']),
-] + [ob('text_PT%ddigitsS_reads_back' % nd, ['SIDE_T', 'ND=%d' % nd], incl=['src/dt-strpf.c'], units=['src/instant.c'], enc=['idiff_strp'], solver='kissat', unwindset={'sym_load.*': 9, 'idiff_strp.*': 9, 'harness.*': 9, 'strtol.*': 12},
-         bounds='every value of exactly %d digits' % nd, tiers=('quick', 'thorough') if nd in (2, 5, 7) else ('thorough',)) for nd in range(1, 8)] + [
+] + [ob('text_PT%ddigitsS_reads_back' % nd, ['SIDE_T', 'ND=%d' % nd], incl=['src/dt-strpf.c'], units=['src/instant.c'], enc=['idiff_strp'], solver='kissat', unwindset={'sym_load.*': 9, 'idiff_strp.0': 2, 'idiff_strp.1': 1, 'idiff_strp.2': 1, 'idiff_strp.3': nd + 2, 'idiff_strp.4': 1, 'idiff_strp.5': 1, 'idiff_strp.6': 3, 'harness.*': 9},
+         bounds='every value of exactly %d digits' % nd, tiers=('quick', 'thorough')) for nd in range(1, 8)] + [
     ob('request_is_timeout', ['SIDE_M'], incl=['src/evical.c'], enc=['make_task'], allow_nobody=['echs_toid_gen', 'echs_instant_utc', 'echs_tzob_offs', 'echs_instant_loc'],
        unwindset={'echs_instant_fixup.*': 3}),
     ob('echsx_arms_timeout', ['SIDE_X'], incl=['src/echsx.c'], replay_extra_units=['src/logger.c'], replay_libs=['-lev'], enc=['echsx', 'set_timeout'], object_bits=11,
